@@ -157,6 +157,29 @@ Definition stoken_eqb_mod_doctype (a b : stoken) : bool :=
 Definition same_structure_mod_doctype (o o' : bytes) : bool :=
   list_eqb stoken_eqb_mod_doctype (fst (skel o)) (fst (skel o')) && hstate_eqb (snd (skel o)) (snd (skel o')).
 
+(* ---- D43: a text node of the template ends inside a tag name (the tokenizer, started in the data
+   state at the beginning of the node, is in the tag name state at its end).  The engine considers the
+   tag name finished at the end of the text node; what the following action, branch or template call
+   writes continues the tag name in the output. *)
+
+Fixpoint texts_of_node (fuel : nat) (n : node) : list bytes :=
+  match fuel with
+  | O => []
+  | S f =>
+      match n with
+      | NText _ s => [s]
+      | NIf _ _ body els | NRange _ _ body els | NWith _ _ body els =>
+          flat_map (texts_of_node f) body ++ flat_map (texts_of_node f) els
+      | _ => []
+      end
+  end.
+
+Definition ends_in_tag_name (s : bytes) : bool :=
+  hstate_eqb (t_state (tok_run (tok_init SData) s)) STagName.
+
+Definition finding_D43 (trees : list (bytes * tree)) : bool :=
+  existsb (fun nt => existsb ends_in_tag_name (flat_map (texts_of_node 64) (snd nt))) trees.
+
 (* ---- D1: a defined template that is the target of at least two template calls and whose body
    changes the context (a context-opening or context-closing helper): the engine memoises the
    callee's INPUT context as its output context, so the second call site continues in the wrong
@@ -209,3 +232,110 @@ Definition finding_D1 (trees : list (bytes * tree)) : bool :=
              Nat.leb 2 (count_calls (fst nt) trees) &&
              existsb (fun s => body_changes_context trees (fst nt) (snd nt) (ctx_after s)) d1_start_texts)
           trees.
+
+(* ================================================================== the whole-template statement
+   A small execution semantics over the ANALYSED template set, enough to state the property for whole
+   templates (it is not proved; the oracle decides it on real outputs).
+
+   The engine's analysis (model/TEscaper.v) of template `name` from the start context yields an
+   escaper e: per action node the sanitizer chain (e_action_edits), per text node the rewritten text
+   (e_text_edits), per template node the derived callee (e_template_edits, e_derived).  A CONTROL PATH
+   through the rewritten tree - a choice of branch for every if / with, of an iteration count for every
+   range, following template calls - flattens into a list of segments: static text, or an action with
+   its chain.  The segments do not depend on the data; executing the path writes the static texts and,
+   for every action, the chain applied to the value its pipeline evaluated to. *)
+
+Inductive seg := SegStatic (s : bytes) | SegAct (chain : list bytes).
+
+Fixpoint ekey_lookup {A} (k : ekey) (l : list (ekey * A)) : option A :=
+  match l with
+  | [] => None
+  | (k', v) :: t => if ekey_eqb k k' then Some v else ekey_lookup k t
+  end.
+
+Section ControlPaths.
+  Variable ns : nsview.
+  Variable e : escaper.
+
+  (* tname = the (possibly derived) template whose tree holds the node *)
+  Inductive path_node : bytes -> node -> list seg -> Prop :=
+  | CPText tn id s :
+      path_node tn (NText id s)
+                [SegStatic (match ekey_lookup (tn, id) (e_text_edits e) with Some s' => s' | None => s end)]
+  | CPActionDecl tn id p : p_decls p <> [] -> path_node tn (NAction id p) []
+  | CPAction tn id p chain :
+      p_decls p = [] -> ekey_lookup (tn, id) (e_action_edits e) = Some chain ->
+      path_node tn (NAction id p) [SegAct chain]
+  | CPComment tn id : path_node tn (NComment id) []
+  | CPIfThen tn id p b el s : path_list tn b s -> path_node tn (NIf id p b el) s
+  | CPIfElse tn id p b el s : path_list tn el s -> path_node tn (NIf id p b el) s
+  | CPWithThen tn id p b el s : path_list tn b s -> path_node tn (NWith id p b el) s
+  | CPWithElse tn id p b el s : path_list tn el s -> path_node tn (NWith id p b el) s
+  | CPRangeElse tn id p b el s : path_list tn el s -> path_node tn (NRange id p b el) s
+  | CPRangeIter tn id p b el iters :
+      iters <> [] -> Forall (path_list tn b) iters -> path_node tn (NRange id p b el) (concat iters)
+  | CPTemplate tn id name p root s :
+      let dname := match ekey_lookup (tn, id) (e_template_edits e) with Some d => d | None => name end in
+      find_template ns e dname = Some (Some root) ->
+      path_list dname root s -> path_node tn (NTemplate id name p) s
+  with path_list : bytes -> list node -> list seg -> Prop :=
+  | CPNil tn : path_list tn [] []
+  | CPCons tn n l s1 s2 : path_node tn n s1 -> path_list tn l s2 -> path_list tn (n :: l) (s1 ++ s2).
+End ControlPaths.
+
+(* executing a path: one value per action, in order; None = a sanitizer returned an error (or the
+   number of values does not fit) *)
+Fixpoint run_path (segs : list seg) (vs : list value) : option bytes :=
+  match segs with
+  | [] => match vs with [] => Some [] | _ => None end
+  | SegStatic s :: rest => match run_path rest vs with Some o => Some (s ++ o) | None => None end
+  | SegAct chain :: rest =>
+      match vs with
+      | [] => None
+      | v :: vs' =>
+          match apply_chain chain v, run_path rest vs' with
+          | Some a, Some o => Some (a ++ o)
+          | _, _ => None
+          end
+      end
+  end.
+
+(* control-equivalent value lists: position by position either both values are untrusted, or they are
+   the same (safe-typed leaves are identical) *)
+Definition ctl_equiv (vs vs' : list value) : Prop :=
+  Forall2 (fun v v' => (untrusted v = true /\ untrusted v' = true) \/ v = v') vs vs'.
+
+(* the engine accepts template `name` of the set: the analysis from the start context ends in the
+   text context without error; e is the resulting escaper *)
+Definition accepted (trees : list (bytes * tree)) (name : bytes) (e : escaper) : Prop :=
+  exists c dname,
+    escape_tree (ns_of_trees trees) 400 ctx0 name esc_empty = AOk (c, dname, e) /\
+    c_state c = StText /\ c_err c = None.
+
+(* ================================================================== alignment of engine context and tokenizer state
+   A first step of the static-text simulation (layer 2 of the DESIGN), as a kernel-evaluated check over
+   the finite name sets of the policy tables: after the static text  <E A=q  (q a double or a single
+   quote) the engine is in the attribute value context of attribute A of element E with that
+   delimiter, and the tokenizer specification is in the matching quoted attribute value state, building
+   a START tag named E whose current attribute is named A. *)
+
+Definition open_attr_text (q : N) (e a : bytes) : bytes := [60] ++ e ++ [32] ++ a ++ [61; q].
+
+Definition align_open_attr (q : N) (e a : bytes) : bool :=
+  match escape_text false ctx0 (open_attr_text q e a) with
+  | EOk c _ _ =>
+      state_eqb (c_state c) StAttr
+      && delim_eqb (c_delim c) (if q =? 34 then DDoubleQuote else DSingleQuote)
+      && bytes_eqb (c_elem c) e && bytes_eqb (c_attr c) a
+  | EPanic => false
+  end &&
+  let t := r_end (html_tokenize SData (open_attr_text q e a)) in
+  hstate_eqb (t_state t) (if q =? 34 then SAttrValueDQ else SAttrValueSQ) && negb (g_is_end (t_tag t))
+  && bytes_eqb (g_name (t_tag t)) e && bytes_eqb (g_aname (t_tag t)) a.
+
+Definition policy_elems : list bytes := map fst P_elementContent ++ P_allowedVoid.
+Definition policy_attrs : list bytes :=
+  map fst P_globalAttr ++ map (fun x : bytes * bytes * N => fst (fst x)) P_elementSpecific.
+
+Definition align_policy_ok : bool :=
+  forallb (fun q => forallb (fun e => forallb (fun a => align_open_attr q e a) policy_attrs) policy_elems) [34; 39].
